@@ -16,9 +16,14 @@ variants the transports use:
              'b' + base64 text, the text round-tripped through UTF-8 (HTTP body);
              at most 16 packets per payload (Payload.max_decode_packets)
   b64=False  websocket: one engineio.packet.Packet.encode(b64=False) per frame, binary raw.
-A message can be delivered at once (inside the sender's eio.send - needed by call(), which
-waits for the ACK) or batched until the sender's API call has returned (several packets in one
-polling payload).
+Sending only ENQUEUES (as the real engine.io does: Socket.queue / the client's write queue); the
+queues are pumped - FIFO per direction, replies produced while pumping are delivered behind what
+is already in flight - when the application's API call has returned, and inside the wait() of the
+events created through create_event() (call() and connect() wait on those for the peer's
+answer).  Nothing is ever delivered from inside a send, so a handler can never run between the
+pieces of a multi-piece (binary) packet of its own side: that would be a second emitter on the
+same connection, which the library documents as unsupported.  Pumping sends either every queued
+packet on its own or all of them together in one polling payload (`batch`).
 
 Trusted / assumed here (engine.io is a dependency, not under test): the transport is FIFO
 and hands MESSAGE payloads to socketio's handler one at a time in order; exceptions raised by
@@ -27,14 +32,19 @@ socketio's handler are contained by engine.io (recorded here as 'escaped', never
 What is recorded (per direction 'c2s' / 's2c'):
   wire[d]   socket.io-level payloads handed to engine.io by the sender, in order
   jtab[d]   every json.loads call of the receiver (text, ok, result|exception name)
-  rx[d]     ('ev', ns, event, args, id)  application handler invoked (sid stripped and checked)
-            ('ack', ns, id, args)        ACK dispatched to a callback (boundary: _handle_ack)
+  rx[d]     ('ev', ns, event, args, id, n)  application handler invoked (sid stripped and checked)
+            ('ack', ns, id, args, n)        ACK dispatched to a callback (boundary: _handle_ack)
+            n = dispatch number: the position at which the receive loop handed the packet to
+            _handle_event / _handle_ack (with async_handlers=True the server runs the handler
+            later, in a task / thread of its own; the list is in order of invocation)
   escaped   exceptions that left socketio's engine.io handlers
 """
 import asyncio
 import inspect
 import logging
 import threading
+
+_pyid = id
 
 from vt import common  # noqa: F401  (sys.path -> /repo/src)
 from vt import coqio
@@ -58,6 +68,38 @@ def _null_logger():
 class _Task:
     def join(self, timeout=None):
         return None
+
+
+class PumpEvent:
+    """threading.Event / asyncio.Event stand-in whose wait() lets the loopback run: the thread
+    (task) that would deliver the peer's answer while the caller waits is the caller itself."""
+
+    def __init__(self, loop):
+        self.loop = loop
+        self.flag = False
+
+    def set(self):
+        self.flag = True
+
+    def clear(self):
+        self.flag = False
+
+    def is_set(self):
+        return self.flag
+
+    def wait(self, timeout=None):
+        if self.loop.is_async:
+            return self._await()
+        if not self.flag:
+            self.loop.run_sync(self.loop.pump())
+        return self.flag
+
+    async def _await(self):
+        if not self.flag:
+            await self.loop.pump()
+        if not self.flag:
+            raise asyncio.TimeoutError()
+        return True
 
 
 class LoopEio:
@@ -109,7 +151,7 @@ class LoopEio:
         self.state = 'disconnected'
 
     def create_event(self, *a, **k):
-        return asyncio.Event() if self.loop.is_async else threading.Event()
+        return PumpEvent(self.loop)
 
     def start_background_task(self, target, *args, **kwargs):
         if self.loop.is_async:
@@ -141,9 +183,13 @@ class Loopback:
         self.jtab = {'c2s': [], 's2c': []}
         self.rx = {'c2s': [], 's2c': []}
         self.escaped = []
-        self.immediate = True
+        self.batch = False                          # pump: all queued packets in one polling payload
+        self.pumping = False
+        self.first = 'c2s'                          # direction the pump serves first
         self.outq = {'c2s': [], 's2c': []}          # engine.io packets waiting for a flush
-        self.cur_id = {'c2s': [], 's2c': []}        # ack id of the event being dispatched (stack)
+        self.cur_id = {'c2s': [], 's2c': []}        # (ack id, dispatch number) of the event being handled (stack)
+        self.seq = 0                                # dispatch counter of the receive loops
+        self.dispatched = {}                        # id(data list) -> dispatch number (server, c2s)
         log = _null_logger()
         kw = dict(async_handlers=async_handlers, serializer=serializer, logger=log, engineio_logger=log,
                   monitor_clients=False, namespaces='*')
@@ -160,6 +206,7 @@ class Loopback:
             # handlers started "in the background" run inline: no threads, deterministic
             self.sio.eio.start_background_task = self._inline_task
         self.sio.eio.generate_id = lambda: 'S-should-not-be-used'
+        self.sio.eio.create_event = lambda *a, **k: PumpEvent(self)
         self._sid_counter = 0
         self.sio.manager  # noqa: B018  (created by the constructor)
         self.eio = LoopEio(self)
@@ -172,6 +219,10 @@ class Loopback:
         self.socket = None
 
     # ------------------------------------------------------------------ plumbing
+    def next_seq(self):
+        self.seq += 1
+        return self.seq
+
     def _inline_task(self, target, *args, **kwargs):
         target(*args, **kwargs)
         return _Task()
@@ -214,54 +265,64 @@ class Loopback:
         loop = self
         sio, client = self.sio, self.client
         s_internal = sio._handle_event_internal
+        s_event = sio._handle_event
         s_ack = sio._handle_ack
         c_event = client._handle_event
         c_ack = client._handle_ack
         if self.is_async:
+            async def s_event_w(eio_sid, namespace, id, data):
+                loop.dispatched[_pyid(data)] = loop.next_seq()
+                return await s_event(eio_sid, namespace, id, data)
+
             async def s_internal_w(server, sid, eio_sid, data, namespace, id):
-                loop.cur_id['c2s'].append(id)
+                loop.cur_id['c2s'].append((id, loop.dispatched.pop(_pyid(data), None)))
                 try:
                     return await s_internal(server, sid, eio_sid, data, namespace, id)
                 finally:
                     loop.cur_id['c2s'].pop()
 
             async def s_ack_w(eio_sid, namespace, id, data):
-                loop.rx['c2s'].append(('ack', namespace or '/', id, _args(data)))
+                loop.rx['c2s'].append(('ack', namespace or '/', id, _args(data), loop.next_seq()))
                 return await s_ack(eio_sid, namespace, id, data)
 
             async def c_event_w(namespace, id, data):
-                loop.cur_id['s2c'].append(id)
+                loop.cur_id['s2c'].append((id, loop.next_seq()))
                 try:
                     return await c_event(namespace, id, data)
                 finally:
                     loop.cur_id['s2c'].pop()
 
             async def c_ack_w(namespace, id, data):
-                loop.rx['s2c'].append(('ack', namespace or '/', id, _args(data)))
+                loop.rx['s2c'].append(('ack', namespace or '/', id, _args(data), loop.next_seq()))
                 return await c_ack(namespace, id, data)
         else:
+            def s_event_w(eio_sid, namespace, id, data):
+                loop.dispatched[_pyid(data)] = loop.next_seq()
+                return s_event(eio_sid, namespace, id, data)
+
             def s_internal_w(server, sid, eio_sid, data, namespace, id):
-                loop.cur_id['c2s'].append(id)
+                loop.cur_id['c2s'].append((id, loop.dispatched.pop(_pyid(data), None)))
                 try:
                     return s_internal(server, sid, eio_sid, data, namespace, id)
                 finally:
                     loop.cur_id['c2s'].pop()
 
             def s_ack_w(eio_sid, namespace, id, data):
-                loop.rx['c2s'].append(('ack', namespace or '/', id, _args(data)))
+                loop.rx['c2s'].append(('ack', namespace or '/', id, _args(data), loop.next_seq()))
                 return s_ack(eio_sid, namespace, id, data)
 
             def c_event_w(namespace, id, data):
-                loop.cur_id['s2c'].append(id)
+                loop.cur_id['s2c'].append((id, loop.next_seq()))
                 try:
                     return c_event(namespace, id, data)
                 finally:
                     loop.cur_id['s2c'].pop()
 
             def c_ack_w(namespace, id, data):
-                loop.rx['s2c'].append(('ack', namespace or '/', id, _args(data)))
+                loop.rx['s2c'].append(('ack', namespace or '/', id, _args(data), loop.next_seq()))
                 return c_ack(namespace, id, data)
         sio._handle_event_internal = s_internal_w
+        sio._handle_event = s_event_w
         sio._handle_ack = s_ack_w
         client._handle_event = c_event_w
         client._handle_ack = c_ack_w
@@ -325,8 +386,6 @@ class Loopback:
     async def client_send(self, data):
         self.wire['c2s'].append(data)
         self.outq['c2s'].append(self.eio_packet.Packet(self.eio_packet.MESSAGE, data))
-        if self.immediate:
-            await self.flush('c2s')
 
     async def server_sent(self):
         # move what the server queued on the real Socket.queue into the outgoing batch
@@ -339,18 +398,35 @@ class Loopback:
             if p.packet_type == self.eio_packet.MESSAGE:
                 self.wire['s2c'].append(p.data)
             self.outq['s2c'].append(p)
-        if self.immediate:
-            await self.flush('s2c')
 
-    async def flush(self, direction):
-        pkts, self.outq[direction] = self.outq[direction], []
-        if not pkts:
+    async def pump(self):
+        """Deliver everything that is queued, and everything that is queued in reaction, FIFO per
+        direction, until both queues are empty and (asyncio) every task has run."""
+        if self.pumping:
             return
-        for p in self._transport(pkts):
-            if direction == 'c2s':
-                await self._to_server(p)
-            else:
-                await self._to_client(p)
+        self.pumping = True
+        try:
+            for _ in range(10000):
+                busy = False
+                for direction in (self.first, 's2c' if self.first == 'c2s' else 'c2s'):
+                    if not self.outq[direction]:
+                        continue
+                    busy = True
+                    pkts, self.outq[direction] = self.outq[direction], []
+                    groups = [pkts] if self.batch else [[p] for p in pkts]
+                    for g in groups:
+                        for p in self._transport(g):
+                            if direction == 'c2s':
+                                await self._to_server(p)
+                            else:
+                                await self._to_client(p)
+                        await self.settle()
+                await self.settle()
+                if not busy and not self.outq['c2s'] and not self.outq['s2c']:
+                    return
+            self.escaped.append(('loop', 'OtherError', 'pump did not terminate'))
+        finally:
+            self.pumping = False
 
     async def _to_server(self, pkt):
         # engine.io's own containment logs and swallows exceptions: make them visible
@@ -404,8 +480,8 @@ class Loopback:
             sid, args = (args[0], args[1:]) if args else (None, args)
             if sid != loop.client.namespaces.get(namespace):
                 args = ('<wrong sid %r>' % (sid,),) + tuple(args)
-            cid = loop.cur_id['c2s'][-1] if loop.cur_id['c2s'] else 'no-dispatch'
-            loop.rx['c2s'].append(('ev', namespace, ev, list(args), cid))
+            cid, seq = loop.cur_id['c2s'][-1] if loop.cur_id['c2s'] else ('no-dispatch', None)
+            loop.rx['c2s'].append(('ev', namespace, ev, list(args), cid, seq))
             return fn('c2s', namespace, ev, list(args), cid)
         if self.coro_handlers:
             async def h(*args):
@@ -423,8 +499,8 @@ class Loopback:
                 ev, args = args[0], args[1:]
             else:
                 ev = event
-            cid = loop.cur_id['s2c'][-1] if loop.cur_id['s2c'] else 'no-dispatch'
-            loop.rx['s2c'].append(('ev', namespace, ev, list(args), cid))
+            cid, seq = loop.cur_id['s2c'][-1] if loop.cur_id['s2c'] else ('no-dispatch', None)
+            loop.rx['s2c'].append(('ev', namespace, ev, list(args), cid, seq))
             return fn('s2c', namespace, ev, list(args), cid)
         if self.coro_handlers:
             async def h(*args):
@@ -442,24 +518,17 @@ class Loopback:
     def server_sid(self, namespace):
         return self.client.namespaces[namespace]
 
-    async def api(self, fn, *a, **k):
+    async def api(self, fn, *a, _flush=True, **k):
         """Run one application API call (emit/send/call on either side); returns ('ok', value)
-        or ('raise', exception name)."""
+        or ('raise', exception name).  With _flush=False what the call queued stays queued
+        (until the next pump)."""
         try:
             r = await aw(fn(*a, **k))
             res = ('ok', r)
         except BaseException as e:      # noqa: B902
             res = ('raise', coqio.exn_name(e), repr(e)[:200])
-        await self.flush('c2s')
-        await self.flush('s2c')
-        await self.settle()
-        # replies produced while flushing
-        for _ in range(4):
-            if not (self.outq['c2s'] or self.outq['s2c']):
-                break
-            await self.flush('c2s')
-            await self.flush('s2c')
-            await self.settle()
+        if _flush:
+            await self.pump()
         return res
 
 
